@@ -140,7 +140,12 @@ func (w *c04World) applyWrite(s, cellsN int) *explore.Fail {
 	data := c04Fill(s, w.written[s], n)
 	var got int
 	var err error
-	ok := c04Call(func() { got, err = w.ss[s].Write(data) })
+	ok := c04Call(func() {
+		got, err = w.ss[s].Write(data)
+		for i := range data { // the application reuses its buffer at once
+			data[i] = 0xEE
+		}
+	})
 	explore.Must(ok, "Write of %d bytes blocked although %d+%d bytes fit the stream's frame buffer", n, w.buffered(s), n)
 	explore.Must(err == nil && got == n, "Write returned (%d, %v) for %d bytes", got, err, n)
 	w.written[s] += n
